@@ -358,7 +358,7 @@ fn c19_workers(idx: usize) -> usize {
 /// preemption bound per model: the more workers, the smaller the bound that completes
 fn model_bound(prop: &str, k: usize, tier: &str) -> Option<usize> {
     if prop == "C15" {
-        return Some(if tier == "thorough" { 4 } else { 3 });
+        return Some(if tier == "thorough" { 5 } else { 3 });
     }
     let w = c19_workers(k);
     match (tier, w) {
